@@ -315,19 +315,22 @@ def rule_traverse(ctx, rep):
     I.PURE_EXTERNALS.setdefault('collections.namedtuple', collections.namedtuple)
 
     def tree():
-        c = Obj(spanc, {'_children': None, '_n': 'c'})
+        # src -(tuple)-> a, b ;  a -(list)-> c, d ;  c -(tuple)-> e ;  d -(list)-> [] ;  b, e leaves
+        e = Obj(spanc, {'_n': 'e'})
+        c = Obj(spanc, {'_children': (e,), '_n': 'c'})
         d = Obj(tokc, {'_children': [], '_n': 'd'})
         a = Obj(tokc, {'_children': [c, d], '_n': 'a'})
-        b = Obj(spanc, {'_n': 'b'})
+        b = Obj(spanc, {'_children': None, '_n': 'b'})
         src = Obj(tokc, {'_children': (a, b), '_n': 'src'})
-        return src, a, b, c, d
+        return src, a, b, c, d, e
     cases = [
-        ({}, lambda s, a, b, c, d: [(a, s, 1), (b, s, 1), (c, a, 2), (d, a, 2)]),
-        ({'include_source': True}, lambda s, a, b, c, d: [(s, None, 0), (a, s, 1), (b, s, 1), (c, a, 2), (d, a, 2)]),
-        ({'depth': 1}, lambda s, a, b, c, d: [(a, s, 1), (b, s, 1)]),
-        ({'depth': 0}, lambda s, a, b, c, d: []),
-        ({'klass': spanc}, lambda s, a, b, c, d: [(b, s, 1), (c, a, 2)]),
-        ({'klass': spanc, 'include_source': True}, lambda s, a, b, c, d: [(b, s, 1), (c, a, 2)]),
+        ({}, lambda s, a, b, c, d, e: [(a, s, 1), (b, s, 1), (c, a, 2), (d, a, 2), (e, c, 3)]),
+        ({'include_source': True}, lambda s, a, b, c, d, e: [(s, None, 0), (a, s, 1), (b, s, 1), (c, a, 2), (d, a, 2), (e, c, 3)]),
+        ({'depth': 1}, lambda s, a, b, c, d, e: [(a, s, 1), (b, s, 1)]),
+        ({'depth': 2}, lambda s, a, b, c, d, e: [(a, s, 1), (b, s, 1), (c, a, 2), (d, a, 2)]),
+        ({'depth': 0}, lambda s, a, b, c, d, e: []),
+        ({'klass': spanc}, lambda s, a, b, c, d, e: [(b, s, 1), (c, a, 2), (e, c, 3)]),
+        ({'klass': spanc, 'include_source': True}, lambda s, a, b, c, d, e: [(b, s, 1), (c, a, 2), (e, c, 3)]),
     ]
     rep.instance(rule)
     for kwargs, expect in cases:
@@ -347,7 +350,7 @@ def rule_traverse(ctx, rep):
                                   'yields': [(name(x[0]), name(x[1]), x[2]) for x in got] if isinstance(got, list) else got})
         if not ok:
             rep.find(rule, tr.short, 'options(%s)' % ','.join(sorted(kwargs)),
-                     'traverse(%s) on a symbolic tree src(a(c,d),b) yields %s; expected %s'
+                     'traverse(%s) on a symbolic tree src(a[c(e),d],b) yields %s; expected %s'
                      % (', '.join(sorted(kwargs)) or 'defaults',
                         [(name(x[0]), name(x[1]), x[2]) for x in got] if isinstance(got, list) else got,
                         [(name(x[0]), name(x[1]), x[2]) for x in want]), loc(model.unit_of(tr), tr.node))
